@@ -8,7 +8,7 @@ from fractions import Fraction
 from framework import CACHE
 
 PROP = "C18"
-LEAN_MODS = ["Cte.Props.C18", "Cte.Props.C18Typed", "Cte.Props.C18Aux", "Cte.Props.C18Tbl"]
+LEAN_MODS = ["Cte.Props.C18", "Cte.Props.C18Typed", "Cte.Props.C18Aux", "Cte.Props.C18Tbl", "Cte.Props.C18Kyg"]
 HARNESS = "c18"
 N = {"quick": 400, "thorough": 6000}
 CORRESPONDENCES = ["build_blocks(text) = Bdl.buildBlocks text: accept/reject, and per block type, name, parent and every attribute value "
